@@ -162,7 +162,7 @@ def plan(prop, tier):
         return {'stages': lock_stages(q) + [conc_stage('c06', 4, 6 if q else 60, 3, 20 if q else 60)], 'rule': RULE_CONC, 'assumptions': ASSUME_CONC}
     if prop == 'C07':
         return {'stages': globals_stages(q) + group_stages(2, 'C13', 0.1 if q else 0.5)[2:] + [conc_stage('c07inst', 4, 2 if q else 30, 2, 15 if q else 40), conc_stage('c07quiet', 6, 2 if q else 30, 3, 15 if q else 40, 1),
-                                               conc_stage('c07seq', 8, 6 if q else 80, 1, 0, 2)], 'rule': RULE_CONC, 'assumptions': ASSUME_CONC}
+                                               conc_stage('c07seq', 8, 6 if q else 80, 1, 0, 2), conc_stage('c07group', 6, 2 if q else 30, 3, 15 if q else 40, 3)], 'rule': RULE_CONC, 'assumptions': ASSUME_CONC}
     if prop == 'C20':
         return {'stages': params_stages(2, 1.0) + params_stages(3, 0.1 if q else 0.6)[1:]
                 + [dict(gogen('bytes', 300 if q else 5000, fam='params', trace='Trace_Params'), replay_prefix=True, min_per_shard=20)],
